@@ -258,7 +258,13 @@ def _worker_run(cases):
     except Infra:
       raise
     except BaseException as e:  # a crash of the harness itself is reported, not hidden
-      out.append({'harness_exception': err_class(e), 'trace': traceback.format_exc()[-1500:]})
+      # ... unless it is the implementation that raised (innermost frame inside the repository) at a point where the
+      # harness expects it to return: that is an observation about the code on this very input
+      tb, last = e.__traceback__, None
+      while tb is not None:
+        last, tb = tb.tb_frame.f_code.co_filename, tb.tb_next
+      out.append({'harness_exception': err_class(e), 'trace': traceback.format_exc()[-1500:],
+                  'raised_in_repo': bool(last) and os.path.realpath(last).startswith(os.path.realpath(str(REPO)) + os.sep)})
   return out
 
 
@@ -362,6 +368,10 @@ def check(prop_module, tier, seed, replay=None):
 
   # 3. run -----------------------------------------------------------------------
   impl = run_impl_parallel(prop_module, cases)
+  raised = [(c, o) for c, o in zip(cases, impl) if o.get('harness_exception') and o.get('raised_in_repo')]
+  if raised:
+    keep = [(c, o) for c, o in zip(cases, impl) if not (o.get('harness_exception') and o.get('raised_in_repo'))]
+    cases, impl = [c for c, _ in keep], [o for _, o in keep]
   reqs = [P.to_driver(c, o) for c, o in zip(cases, impl)]
   model = run_driver_batch(reqs)
 
@@ -429,6 +439,21 @@ def check(prop_module, tier, seed, replay=None):
     out_lines.append(f'VIOLATION property={pid} replay={rp}{tail}')
     reported.append(str(rp))
     violations += 1
+  for (c, o) in raised:
+    # the implementation raised where every run on the recorded tree returns: the correspondence is broken on this
+    # input (the input is the replay; whether the property itself fails there is not decided)
+    violations += 1
+    if len(reported) >= 5:
+      continue
+    replay_dir.mkdir(exist_ok=True)
+    rp = replay_dir / f'{pid}-{seed}-{len(reported)}.json'
+    rp.write_text(json.dumps({'property': pid, 'seed': seed, 'tier': tier, 'case': {k: v for k, v in c.items() if k != 'idx'},
+                              'impl': o, 'model': None, 'property_oracle': None,
+                              'correspondence': f"the implementation raised {o['harness_exception']} at a point where it returns on the recorded tree",
+                              'failing_input_found': False, 'unchecked': f'corr:{P.DOMAIN}',
+                              'rerun': f'./check {pid} --replay {rp.relative_to(VERIF)}'}, indent=1, sort_keys=True))
+    out_lines.append(f'VIOLATION property={pid} replay={rp} no-failing-input-found')
+    reported.append(str(rp))
   for e in findings:
     out_lines.insert(0, f"KNOWN-FINDING: property={pid} {e['id']}: {e['what']}"
                      + (f" (hit by {len(known_hits[e['id']])} cases this run)" if e['id'] in known_hits else ''))
